@@ -55,6 +55,9 @@ class Tap:
             self.out.put(pkt)
 
 
+INJECT_AGES = [0, 0.5, 0, 2, 0.125, 0, 64, 1]
+
+
 class Lab:
     def __init__(self, env=None, clause="C08.no_exception", budget=200000):
         self.env = env or Environment()
@@ -93,7 +96,10 @@ class Lab:
         pkts = []
         for i, w in enumerate(workload):
             t, flow, size, payload, late = w
-            pkt = Packet(t, size, i + 1, src=f"{src_prefix}{flow}", flow_id=flow, payload=payload)
+            # creation time is not arrival time: most packets have been under way for a while when they reach the element under
+            # test (queues and hops upstream); no element may take packet.time for the instant of arrival
+            age = INJECT_AGES[(i * 5 + len(workload)) % len(INJECT_AGES)]
+            pkt = Packet(t - age, size, i + 1, src=f"{src_prefix}{flow}", flow_id=flow, payload=payload)
             pkts.append(pkt)
             self._arrive(entry, pkt, t, late)
         self.packets.extend(pkts)
